@@ -11,6 +11,7 @@ META = {
         "(3) replace = remove all previous: each set*Breakpoints handler takes the previous record set out of the session and passes every address of every previous record to remove_breakpoint before the first new installation; "
         "(4) `verified` is true exactly on the arms whose record has installed addresses; "
         "(5) hit bookkeeping (condition / hitCondition / logMessage) is consulted for every breakpoint stop before it is reported, and the hit-condition operators are decoded consistently."
+        " Also: every success reply of a set*Breakpoints handler (incl. setDataBreakpoints) has passed the take and the removal loop; the record lookup visits every source entry; a bare identifier condition is evaluated as a variable."
     ),
     "not_decided": "where the program actually stops; evaluation results of conditions (value-level)",
     "assumptions": [],
